@@ -147,6 +147,11 @@ class Outcome:
 
     def prove(self, name, goal, pc_len=None, extra_hyps=(), kind='ensures', budget_ms=None, hints=()):
         goal = T.truthy(goal) if not isinstance(goal, bool) else goal
+        if T.is_z3(goal) and pc_len is None and self.cx.known:
+            # resolve flags already decided on this path (propositional constants in the path condition) inside the goal
+            subs = [(c, z3.BoolVal(v)) for c, v in self.cx.known.values() if z3.is_const(c) and c.decl().kind() == z3.Z3_OP_UNINTERPRETED]
+            if subs:
+                goal = T.N(z3.simplify(z3.substitute(goal, *subs)))
         hs = list(self.hyps(pc_len)) + [T.to_bool_term(h) for h in extra_hyps]
         for t in hints:
             t = N(t)
@@ -213,6 +218,7 @@ class Verifier:
         self.lib = Lib()
         self.itp = Interp(self.lib, contracts=dict(SUMMARIES), invariants=INVARIANTS)
         self.paths_seen = 0
+        self.fail_counts = {}
         self.vacuous_paths = 0
         self.canary_ms = 300
         self.engine_errors = []
@@ -377,14 +383,25 @@ class Verifier:
     def record(self, out, name, hyps, goal, kind, budget_ms, backend=None):
         full = '%s/%s/%s/%s/%s' % (self.unit['prop'], self.unit['name'], self.case_tag or '-', out.path, name)
         t0 = time.time()
+        fails = self.fail_counts.get(name, 0)
         if backend is not None:
             res = dict(verdict='proved', backend=backend, time_s=0.0, model=None, reason='')
+        elif fails >= 2 and not (isinstance(goal, bool) and goal):
+            # the same clause already failed on two paths of this unit case: do not spend the budget again
+            res = dict(verdict='unknown', backend='skipped', time_s=0.0, model=None,
+                       reason='not attempted: this clause already failed on %d other paths of the same case' % fails)
         else:
             res = P.discharge(hyps, goal, timeout_ms=budget_ms or self.budget_ms, use_cvc5=self.use_cvc5, seed=self.seed)
         rec = dict(name=full, clause=name, kind=kind, mode=self.mode, verdict=res['verdict'], backend=res['backend'],
                    time_s=round(res['time_s'], 4), n_hyps=len(hyps), reason=res['reason'], path=out.path, function=out.fn)
+        if res['verdict'] != 'proved':
+            self.fail_counts[name] = fails + 1
+        if res.get('candidate'):
+            rec['candidate'] = True
+        if getattr(out, 'replay_info', None):
+            rec['replay_info'] = out.replay_info
         if res['verdict'] == 'refuted':
-            model = self.nice_model(hyps, goal) or res['model']
+            model = (None if res.get('candidate') else self.nice_model(hyps, goal)) or res['model']
             rec['counterexample'] = self.counterexample(out, model, goal)
         self.records.append(rec)
         return rec
